@@ -584,7 +584,7 @@ def _gen_record(rng, kind, tx, gene):
         elif a in INT_ATTRS:
             attrs[a] = rng.choice([0, 1, rng.randint(2, 300)])
         else:
-            attrs[a] = f'{a.lower()}_{rng.randint(0, 99)}:x-y.z'
+            attrs[a] = f'{a.lower()}_{rng.randint(0, 99)}:x-y.z' + rng.choice(['', '', '\u00f6', '\u4e2d\u6587'])   # multi-byte characters: byte offsets
     return VariantRecord(FeatureLocation(seqname=gene, start=start, end=end), ref, alt, k['type'], f'{k["type"]}-{start + 1}-{rng.randint(0, 9)}', attrs)
 
 
@@ -659,10 +659,11 @@ class NativeGvfRoundTrip(NativeCheck):
             paths = []
             for f, recs in enumerate(per_file):
                 pth = d / f'in{f}.gvf'
-                meta = GVFMetadata(parser='parseCIRCexplorer' if inp['circ'] else 'parseVEP', source='circRNA' if inp['circ'] else 'gSNP', chrom='Gene ID')
+                meta = GVFMetadata(parser='parseCIRCexplorer' if inp['circ'] else 'parseVEP', source='circRNA' if inp['circ'] else 'gSNP', chrom='Gene ID',
+                                   genome_fasta='/data/Sj\u00f6gren/g\u00e9nome.fa' if f % 2 == 0 else '/data/genome.fa')
                 if inp['circ']:
                     meta.add_info('circRNA')
-                with open(pth, 'wt') as fh:
+                with open(pth, 'wt', encoding='utf-8') as fh:
                     for hl in meta.to_strings():
                         fh.write(hl + '\n')
                     fh.write('#CHROM\tPOS\tID\tREF\tALT\tQUAL\tFILTER\tINFO\n')
